@@ -118,6 +118,7 @@ func c10(c *core.Check) {
 	c10WidthEquation(c)
 	c10CollapseMargin(c)
 	c10CollapseThrough(c)
+	c10Provenance(c)
 	r4 := c.Rule("R4", "sibling symmetry in block layout code: two assignments of one block that differ by a side (Top/Bottom, Left/Right) on the left and have the same shape on the right mirror every side name of that axis (a half-mirrored pair is a copy-paste slip between the two sides of a box)", 4)
 	sideSymmetryRule(c, r4, "html/layout", map[string]bool{"blocks.go": true, "percentages.go": true, "min_max.go": true, "absolute.go": true, "float.go": true, "replaced.go": true, "preferred.go": true, "tables.go": true, "flex.go": true, "pages.go": true, "backgrounds.go": true, "columns.go": true, "grid.go": true}, 6)
 	r5 := c.Rule("R5", "box-edge sums: an additive expression over margins, paddings and border widths mentions each kind of edge with the same sides (both sides of an axis for all of them, or one side for all of them): a sum with the padding of both sides and twice the same border is a copy-paste slip", 20)
@@ -125,6 +126,8 @@ func c10(c *core.Check) {
 	sideSumRule(c, r5, "html/boxes", nil, 3)
 	r10 := c.Rule("R10", "box-edge conditions: a boolean condition that tests several kinds of box edges (border, padding, margin) tests each kind on the same sides — the border and the padding that keep a margin from collapsing are those of the margin's own side (CSS 2.1 §8.3.1)", 3)
 	sideCondRule(c, r10, "html/layout", nil, 4)
+	r11 := c.Rule("R11", "two-element assignments between values named after the sides of a box (margins saved and restored, left/right, top/bottom) are not crossed", 5)
+	sideTupleRule(c, r11, "html/layout", 8)
 	r6 := c.Rule("R6", "no call passes two same-typed arguments under each other's parameter names (swapped arguments): every pair of arguments named after the callee's parameters is aligned with them", 60)
 	argNameRule(c, r6, "html/layout", map[string]bool{"blocks.go": true, "percentages.go": true, "min_max.go": true, "absolute.go": true, "float.go": true, "replaced.go": true, "preferred.go": true, "tables.go": true, "flex.go": true, "grid.go": true, "layout.go": true, "backgrounds.go": true}, 90)
 }
